@@ -110,6 +110,8 @@ def run(ctx, rep):
     pattern_template(pdb, rep)
     derived_logs(pdb, rep)
     parser_mapping(pdb, rep, R)
+    annotation_kinds(pdb, rep)
+    main_page_selection(pdb, rep)
     seen_transform = set()
     for cname in ctx.cli_configs():
         cdb = ctx.db(cname)
@@ -466,9 +468,10 @@ def parser_signatures(pdb, R=None):
 
 # small, pure derivations (logarithms, layer sizes, constants tables, the z/alpha pick): compared exactly. The large
 # data-mapping functions are compared end to end instead (parser_e2e), which does not depend on how they are written.
-EXACT_FUNCTIONS = ('::log2_if_power_of_2', '::log_trace_domain_size', '::log_eval_damain_size', '::layer_log_sizes',
+EXACT_FUNCTIONS = ('::stark_unsent_commitment', '::stark_witness', '::log2_if_power_of_2', '::log_trace_domain_size', '::log_eval_damain_size', '::layer_log_sizes',
                    '::extract_z_and_alpha', '::Layout::bytes_encode', '::Builtin::ordered')
 EXACT_PREFIXES = ('swiftness_proof_parser::layout::LayoutConstants::',)
+SELECTORS = ('::Builtin::sort_segments',)
 
 
 def parser_mapping(pdb, rep, R):
@@ -506,6 +509,20 @@ def parser_mapping(pdb, rep, R):
         rep.ob('C19.mapping', p, not diffs, f'{p.split("::")[-1]}: {len(d)} derived values' + (' as confirmed' if not diffs else '; changed: ' + '; '.join(diffs[:3])),
                pdb.fns[p].loc(), 'parser')
     rep.floor('C19.mapping', 'derived values compared exactly', n, 40)
+    # (a') selection predicates: which comparisons (== versus !=, < versus <=) the function and its closures make, as a
+    # multiset over the whole source-level function (so moving the test between a closure and a loop does not matter)
+    for p in sorted(want):
+        if not p.endswith(SELECTORS) or '{closure' in p or p not in cur:
+            continue
+        def merged(tabl):
+            out = []
+            for q, d in tabl.items():
+                if q == p or q.startswith(p + '::{closure'):
+                    out += d.get('comparisons', [])
+            return sorted(out)
+        a, b = merged(cur), merged(want)
+        rep.ob('C19.mapping', f'comparisons|{p}', a == b, f'{p.split("::")[-1]} (with its closures) compares with {a}' + ('' if a == b else f'; confirmed: {b}'),
+               pdb.fns[p].loc(), 'parser')
     # (b)
     e2e = parser_e2e(pdb)
     wante = tab.get('e2e', {})
@@ -560,3 +577,77 @@ def _const_indices(t):
         for x in t.values():
             out += _const_indices(x)
     return out
+
+
+def annotation_kinds(pdb, rep):
+    """Annotations::new: the field named x_y_z is extracted with Annotation::XYZ (the kind selects the line prefix), and
+    with no other kind. Read off the def-use trees with helpers inlined, so a lookup helper does not hide the kind."""
+    fn = pdb.fns.get('swiftness_proof_parser::annotations::Annotations::new')
+    if fn is None or not fn.has_mir:
+        rep.fail_closed('C19.kinds', 'Annotations::new not found')
+        return
+    T = exprtree.Trees(pdb, fn, inline=2)
+
+    def variants(t, out):
+        if isinstance(t, tuple):
+            if t and t[0] == 'agg' and isinstance(t[1], str) and t[1].endswith('::Annotation'):
+                out.append(t[2])
+            for x in t[1:]:
+                variants(x, out)
+        elif isinstance(t, dict):
+            for x in t.values():
+                variants(x, out)
+        return out
+    n = 0
+    for b in fn.blocks:
+        for st in b['stmts']:
+            if st['k'] == 'assign' and st['rv'].get('k') == 'agg' and st['rv'].get('adt', '').endswith('::Annotations'):
+                for k, o in zip(st['rv']['fields'], st['rv']['ops']):
+                    vs = sorted(set(variants(T.operand(o), [])))
+                    if not vs:
+                        continue        # z / alpha / the per-layer witnesses are built differently (C19.mapping)
+                    n += 1
+                    want = ''.join(w.capitalize() for w in k.split('_'))
+                    rep.ob('C19.kinds', k, vs == [want], f'Annotations.{k} is extracted with {vs} (expected [{want}])', fn.loc(st['line']), 'parser')
+    rep.floor('C19.kinds', 'annotation fields with a kind', n, 10)
+
+
+def main_page_selection(pdb, rep):
+    """main_page(): a public-memory cell enters the main page exactly when its page number is 0. Two ways of writing it
+    are read: a `filter` closure whose result is `cell.page == 0`, or a loop in which every feasible path to the `push`
+    has taken the test page == 0 as true (resp. page != 0 as false)."""
+    cands = [p for p in pdb.fns if p.endswith('::StarkProof::main_page')]
+    if len(cands) != 1:
+        return
+    fn = pdb.fns[cands[0]]
+
+    def is_page(t):
+        return isinstance(t, tuple) and t[0] == 'proj' and t[2] == 'page'
+    ok, how = False, 'no selection on the page number found'
+    T = exprtree.Trees(pdb, fn)
+    for bi, t in fn.calls():
+        if t['f'].get('name') == 'filter' and len(t['args']) == 2:
+            cl = T.operand(t['args'][1])
+            if isinstance(cl, tuple) and cl[0] == 'closure' and cl[1] in pdb.fns:
+                body = exprtree.Trees(pdb, pdb.fns[cl[1]]).local(0)
+                if isinstance(body, tuple) and len(body) == 3 and body[0] in ('Eq', 'eq') and ('val', 0) in body[1:] and any(is_page(x) for x in body[1:]):
+                    ok, how = True, 'filter(|m| m.page == 0)'
+                else:
+                    how = f'filter closure returns {exprtree.show(body)[:60]}'
+    if not ok:
+        pushes = [bi for bi, t in fn.calls() if t['f'].get('name') == 'push']
+        for pb in pushes:
+            ps = exprtree.paths_to(fn, pb, limit=400) or []
+            feas = [pt for pt in (exprtree.PathTrees(pdb, fn, pth) for pth in ps) if pt.consistent()]
+
+            def selected(pt):
+                for c, v in pt.decisions():
+                    if isinstance(c, tuple) and len(c) == 3 and ('val', 0) in c[1:] and any(is_page(x) for x in c[1:]):
+                        if (c[0] in ('Eq', 'eq') and v != '0') or (c[0] in ('Ne', 'ne') and v == '0'):
+                            return True
+                return False
+            if feas and all(selected(pt) for pt in feas):
+                ok, how = True, f'loop: every path to the push has page == 0 ({len(feas)} paths)'
+            elif feas:
+                how = 'a path reaches the push without page == 0'
+    rep.ob('C19.mapping', 'main-page-selection', ok, f'main_page keeps the cells of page 0: {how}', fn.loc(), 'parser')
